@@ -810,3 +810,37 @@ Fixpoint history (s : scn) (cs : list conn) : res :=
   | [] => res0
   | c :: r => res_add (kept (handle s (fuel_for c) c)) (history s r)
   end.
+
+(* ------------------------------------------------------------------ *)
+(* services/vnc/rfb.go, the update-request queue (the service itself is not modelled, see
+   part "sweep"): serve() - the producer - parses FramebufferUpdateRequests and sends each to
+   pushFramesLoop - the consumer - over the channel fbupc of capacity 128.  The pusher may end
+   on its own (unsupported pixel format: recover, close the socket, return).  Requests that
+   serve() has already read into its 4 KiB bufio.Reader keep coming after that.
+   [fixed]: the send selects on a 'pusher gone' channel (fixes/C09-vnc-...patch); HEAD = false.
+   Schedule: before each send the pusher (while alive) takes some requests and may end. *)
+Definition VNC_QCAP : nat := 128.
+Inductive pusher := PAlive | PGone.
+Record pact := mkPact { pa_take : nat; pa_die : bool }.
+
+Inductive qout :=
+| QDone (q : nat) (p : pusher)   (* every buffered request handed over; serve() goes back to Read *)
+| QFailed                        (* serve() sees that the pusher is gone and ends (failf, recovered) *)
+| QBlocked.                      (* queue full and nobody left to take from it: the send waits for ever *)
+
+Fixpoint serve_queue (fixed : bool) (sched : list pact) (reqs : nat) (q : nat) (p : pusher) : qout :=
+  match reqs with
+  | O => QDone q p
+  | S r =>
+      let a := hd (mkPact 0 false) sched in
+      let q1 := match p with PAlive => (q - Nat.min (pa_take a) q)%nat | PGone => q end in
+      let p1 := match p with PAlive => if pa_die a then PGone else PAlive | PGone => PGone end in
+      if (q1 <? VNC_QCAP)%nat
+      then serve_queue fixed (tl sched) r (S q1) p1   (* room: the send goes through (with the fix and
+                                                       a gone pusher the select may as well end serve()) *)
+      else match p1 with
+           | PAlive => serve_queue fixed (tl sched) r q1 p1   (* full: waits until the pusher, which is in
+                                                               its receive loop, takes one; then sends *)
+           | PGone => if fixed then QFailed else QBlocked
+           end
+  end.
